@@ -140,7 +140,10 @@ func genLeaseFile(c *Ctx, v6 bool, macs [][]byte, bad bool) string {
 			wrongFam = "10.1.1.1"
 		}
 		b := []string{"02:00:00:00:00:01", "02:00:00:00:00:01 10.0.0.1 extra", "zz:00:00:00:00:01 10.0.0.1", "02:00:00:00:00:01 not-an-ip",
-			"02:00:00:00:00:01 " + wrongFam, "   ", " # indented comment", "02:00:00:00:00 10.0.0.1", "\r", "02:00:00:00:00:01 10.0.0.1 10.0.0.2 10.0.0.3"}[badKind%10]
+			"02:00:00:00:00:01 " + wrongFam, "   ", " # indented comment", "02:00:00:00:00 10.0.0.1", "\r", "02:00:00:00:00:01 10.0.0.1 10.0.0.2 10.0.0.3",
+			// an IPv4 address in IPv4-mapped spelling: the wrong family in a DHCPv6 file (in a DHCPv4 file: another field too many)
+			"02:00:00:00:00:01 ::ffff:10.1.1.1" + map[bool]string{true: "", false: " x"}[v6], "02:00:00:00:00:01 ::FFFF:a01:101" + map[bool]string{true: "", false: " x"}[v6],
+			"02:00:00:00:00:01 0:0:0:0:0:ffff:10.1.1.1" + map[bool]string{true: "", false: " x"}[v6]}[badKind%13]
 		badKind++ // every malformation in turn
 		at := r.Intn(len(lines) + 1)
 		lines = append(lines[:at], append([]string{b}, lines[at:]...)...)
@@ -227,6 +230,14 @@ func runFile(c *Ctx) {
 		}
 		setup := func(v6 bool, bad bool, autorefresh bool) *inst {
 			in := &inst{v6: v6, path: filepath.Join(wd, fmt.Sprintf("leases-%d-%d-%v.txt", os.Getpid(), hi, v6))}
+			switch hi % 5 { // the configured path need not be in clean form
+			case 1:
+				in.path = wd + "/./" + filepath.Base(in.path)
+			case 2:
+				in.path = wd + "//" + filepath.Base(in.path)
+			case 3:
+				in.path = wd + "/../" + filepath.Base(wd) + "/" + filepath.Base(in.path)
+			}
 			in.content = genLeaseFile(c, v6, macs, bad)
 			os.WriteFile(in.path, []byte(in.content), 0o644)
 			collect(in.content)
